@@ -1,6 +1,6 @@
 CONSTANTS
  Classes = {"Cuboid","Cylinder","CylinderSegment","Sphere","Tetrahedron","TriangularMesh","Circle","Polyline","Dipole","Triangle","CustomSource","Sensor","Collection"}
- PathIds = {"static","path3","path4"}
+ PathIds = {"static","path3","path4","path6"}
  SelIds = {"default","zero","every1","every2","every3","neg2","list02","list1_9","listneg","empty"}
  UnitsReq = {"auto","m","cm","mm","um","km"}
  Backends = {"plotly","matplotlib"}
